@@ -200,6 +200,9 @@ func (h *handler) ConsumeClaim(s sarama.ConsumerGroupSession, c sarama.ConsumerG
 		want = 1
 	case "k2":
 		want = 2
+	case "k1e":
+		// reads and marks one message, commits by hand (ConsumerGroupSession.Commit) and FAILS
+		want = 1
 	}
 	h.r.mu.Lock()
 	h.m.reading[part] = true
@@ -231,6 +234,10 @@ func (h *handler) ConsumeClaim(s sarama.ConsumerGroupSession, c sarama.ConsumerG
 			return nil
 		}
 	}
+	if h.r.p.Mode == "k1e" {
+		s.Commit()
+		return errors.New("claim failed (deliberate)")
+	}
 	return nil
 }
 
@@ -255,6 +262,8 @@ func run(c *gx.Ctl, p *Params) *gx.Outcome {
 			cl.CommitFaults = append(cl.CommitFaults, strings.TrimPrefix(f, "commit-"))
 		case strings.HasPrefix(f, "fetch-"):
 			cl.FetchFaults = append(cl.FetchFaults, strings.TrimPrefix(f, "fetch-"))
+		case strings.HasPrefix(f, "ofetch-"):
+			cl.OffsetFetchFaults = append(cl.OffsetFetchFaults, strings.TrimPrefix(f, "ofetch-"))
 		case strings.HasPrefix(f, "offsets-"):
 			cl.OffsetFaults = append(cl.OffsetFaults, strings.TrimPrefix(f, "offsets-"))
 		default:
